@@ -1084,6 +1084,8 @@ pub fn families(check: &str, tier: &str) -> Vec<Box<dyn Family>> {
         "C10" => {
             let tws: &'static [u8] = if quick { &[0, 1, 2, 4, 8, 85] } else { &[0, 1, 2, 3, 4, 8, 16, 17, 85, 127, 128, 255] };
             let cis: &'static [u8] = if quick { &[0, 1, 2, 3] } else { &[0, 1, 2, 3, 15, 16, 127, 255] };
+            // (for the unit clause, including products beyond the u8 boundary)
+            let cis_sat: &'static [u8] = if quick { &[0, 1, 3, 4, 255] } else { &[0, 1, 2, 3, 4, 15, 16, 127, 255] };
             let bases = [cfg::DEFAULT, cfg::DEFAULT.with(|c| { c.begin = cfg::BeginStyle::AlwaysWrap; c.le = cfg::Le::Crlf; })];
             let body = move |x: &str, c: &Cfg, ctx: &mut Ctx| {
                 let mut first = true;
@@ -1096,6 +1098,8 @@ pub fn families(check: &str, tier: &str) -> Vec<Box<dyn Family>> {
                 }
                 ctx.sub_eval();
                 o2::c10_linear(x, cis, c, ctx);
+                ctx.sub_eval();
+                o2::c10_units(x, tws, cis_sat, c, ctx);
             };
             let d = if quick { 1 } else { 2 };
             vec![
@@ -1274,6 +1278,13 @@ pub fn replay(case: &Value, ctx: &mut Ctx) -> bool {
             &input,
             case["tw"].as_u64().unwrap_or(2) as u8,
             case["ci"].as_u64().unwrap_or(2) as u8,
+            &c,
+            ctx,
+        ),
+        "c10_units" => o2::c10_units(
+            &input,
+            &[case["tw"].as_u64().unwrap_or(2) as u8],
+            &[case["ci"].as_u64().unwrap_or(2) as u8],
             &c,
             ctx,
         ),
